@@ -446,7 +446,15 @@ func (w *worker) profileAfterParse() (int, string) {
 	gs := libraryGoroutines()
 	// settle: a goroutine that is merely late (e.g. a scanner that still has to
 	// close its channel on a loaded machine) gets up to 100 ms
-	for wait := 0; wait < 50; wait++ {
+	// (once a worker already holds 40 goroutines that outlived that settle time,
+	// the tree is leaking for real and the verdict no longer depends on telling
+	// late from leaked for each further parse: 10 ms, so that a check on a
+	// leaking tree stays within minutes)
+	settle := 50
+	if len(w.leakedIDs) >= 40 {
+		settle = 5
+	}
+	for wait := 0; wait < settle; wait++ {
 		fresh := false
 		for _, g := range gs {
 			if !w.leakedIDs[g.id] {
